@@ -1,10 +1,377 @@
-//! C16 — not built yet.
+//! C16 HTTP 304 only when the client already has the served version.
+//!
+//! As C15 (updater thread performing `Server::process_once` calls, reader threads going through the
+//! real dispatcher, harness-owned schedule), with a client that remembers every validator pair
+//! (ETag, Last-Modified) a 200 response ever carried, together with the version it was issued for,
+//! and replays any of them as `If-None-Match` and/or `If-Modified-Since` at any point of the
+//! updater's sequence, in particular between `update` (new data installed) and `mark_update_done`
+//! (creation time recorded).
+//!
+//! Oracle (property statement): a 304 is legitimate only if one of the presented validators was
+//! issued for the version that is served at the moment of the request's lock acquisition (trace
+//! position => number of installs before it => serial of the reference model). Additionally an
+//! ETag must never be issued for two different versions (otherwise some 304 for it is wrong).
+//!
+//! What this check can and cannot reach is stated in `rep.assume` below and in MANIFEST.json: with
+//! the real clock, `If-Modified-Since` carrying a Last-Modified issued by routinator yields 304
+//! only if the recorded creation time has a zero sub-second part (probability ~1e-9 per update),
+//! because `maybe_not_modified` compares the whole-second date with the nanosecond `created`.
 
+use std::collections::{BTreeMap, BTreeSet};
+use std::sync::{Arc, Mutex};
+
+use proptest::prelude::*;
+use serde::{Deserialize, Serialize};
+
+use crate::c15::{obs_reads, parse_etag, World};
 use crate::core::*;
+use crate::hsched::*;
+use crate::pay::*;
+use crate::sched::{self, BytesChooser, Chooser, Dfs, Job, Opts};
 
-pub const IMPLEMENTED: bool = false;
+#[derive(Serialize, Deserialize, Clone, Debug, PartialEq, Eq, Hash)]
+pub enum COp {
+    /// plain GET (collects validators); csv or json
+    Get { csv: bool },
+    /// conditional GET replaying stored validator number `pick` (mod number stored)
+    Cond {
+        pick: u8,
+        etag: bool,
+        date: bool,
+        csv: bool,
+        /// additionally list a second stored ETag (`pick2`) in If-None-Match
+        pick2: Option<u8>,
+    },
+}
 
-pub fn run(_ctx: &Ctx, _rep: &mut Report, _replay: Option<&serde_json::Value>) {
-    eprintln!("C16: check not implemented");
-    std::process::exit(2);
+#[derive(Serialize, Deserialize, Clone, Debug)]
+pub struct Case {
+    pub keep: usize,
+    /// data set ids installed sequentially before the concurrent phase (>= 1); after each of them
+    /// the client fetches /json and /csv and stores the validators
+    pub pre: Vec<u8>,
+    pub sets: Vec<u8>,
+    pub readers: Vec<Vec<COp>>,
+    pub choices: Vec<u8>,
+}
+
+/// A stored validator pair and where it came from.
+#[derive(Clone, Debug)]
+struct Val {
+    etag: String,
+    date: String,
+    /// serial it was issued for, if already known (sequential phase); otherwise the issuing observation
+    serial: Option<u32>,
+    origin: Option<(usize, usize)>,
+}
+
+#[derive(Clone, Debug)]
+struct CObs {
+    tid: usize,
+    k: usize,
+    csv: bool,
+    status: u16,
+    etag: Option<String>,
+    date: Option<String>,
+    /// indices into the store of the presented validators: (etag ones, date one)
+    sent_etags: Vec<usize>,
+    sent_date: Option<usize>,
+}
+
+fn headers_of(r: &routinator::http::verif::PlainResponse) -> (Option<String>, Option<String>) {
+    (r.header("etag").map(|s| s.to_string()), r.header("last-modified").map(|s| s.to_string()))
+}
+
+fn reader_job(inst: &Inst, tid: usize, ops: Vec<COp>, store: Arc<Mutex<Vec<Val>>>, out: Arc<Mutex<Vec<CObs>>>) -> Job {
+    let inst = inst.clone();
+    Box::new(move || {
+        for (k, op) in ops.iter().enumerate() {
+            let (csv, headers, sent_etags, sent_date) = match op {
+                COp::Get { csv } => (*csv, Vec::new(), Vec::new(), None),
+                COp::Cond { pick, etag, date, csv, pick2 } => {
+                    let st = store.lock().unwrap();
+                    if st.is_empty() {
+                        (*csv, Vec::new(), Vec::new(), None)
+                    } else {
+                        let i = *pick as usize % st.len();
+                        let mut headers = Vec::new();
+                        let mut sent_etags = Vec::new();
+                        let mut sent_date = None;
+                        if *etag || !*date {
+                            let mut value = st[i].etag.clone();
+                            sent_etags.push(i);
+                            if let Some(p2) = pick2 {
+                                let j = *p2 as usize % st.len();
+                                value = format!("{}, {}", st[j].etag, value);
+                                sent_etags.push(j);
+                            }
+                            headers.push(("If-None-Match".to_string(), value));
+                        }
+                        if *date {
+                            headers.push(("If-Modified-Since".to_string(), st[i].date.clone()));
+                            sent_date = Some(i);
+                        }
+                        (*csv, headers, sent_etags, sent_date)
+                    }
+                }
+            };
+            sched::note(format!("o {} 0 begin", k));
+            let r = request_now(&inst.handler, if csv { "/csv" } else { "/json" }, &headers);
+            sched::note(format!("o {} 0 end", k));
+            let (etag, date) = headers_of(&r);
+            if r.status == 200 {
+                if let (Some(e), Some(d)) = (&etag, &date) {
+                    store.lock().unwrap().push(Val { etag: e.clone(), date: d.clone(), serial: None, origin: Some((tid, k)) });
+                }
+            }
+            out.lock().unwrap().push(CObs { tid, k, csv, status: r.status, etag, date, sent_etags, sent_date });
+        }
+    })
+}
+
+fn execute(world: &World<'_>, case: &Case, chooser: &mut dyn Chooser, info: &mut CaseInfo) -> Verdict {
+    if case.pre.is_empty() || case.pre.len() > 3 || case.sets.is_empty() || case.sets.len() > 4 || case.readers.is_empty() || case.readers.len() > 3 || case.readers.iter().any(|r| r.is_empty() || r.len() > 4) {
+        return Verdict::Dropped("case_out_of_domain".into());
+    }
+    let inst = Inst::new(world.config(case.keep), world.fx.engine.clone());
+    let all: Vec<MSet> = case.pre.iter().chain(case.sets.iter()).map(|i| set_of(*i)).collect();
+    let model = Model::new(&all);
+    let store: Arc<Mutex<Vec<Val>>> = Default::default();
+    {
+        let mut n = inst.notify.clone();
+        for (i, id) in case.pre.iter().enumerate() {
+            if !inst.process_once(&mut n, &set_of(*id), i == 0) {
+                return Verdict::Dropped("pre_run_failed".into());
+            }
+            for uri in ["/json", "/csv"] {
+                let r = request_now(&inst.handler, uri, &[]);
+                let (e, d) = headers_of(&r);
+                match (r.status, e, d) {
+                    (200, Some(e), Some(d)) => store.lock().unwrap().push(Val { etag: e, date: d, serial: Some(model.serial(i + 1)), origin: None }),
+                    (status, e, d) => return Verdict::fail("C16/no-validators-issued", format!("GET {} after a completed validation: status {}, ETag {:?}, Last-Modified {:?}", uri, status, e, d)),
+                }
+            }
+        }
+    }
+    let session = inst.session();
+    let out: Arc<Mutex<Vec<CObs>>> = Default::default();
+    let mut jobs: Vec<Job> = vec![updater_job(&inst, case.sets.iter().map(|i| set_of(*i)).collect(), case.pre.len())];
+    for (r, ops) in case.readers.iter().enumerate() {
+        jobs.push(reader_job(&inst, r + 1, ops.clone(), store.clone(), out.clone()));
+    }
+    let mut watch = Watch::new(&inst.history);
+    let run = sched::run_opts(
+        jobs,
+        chooser,
+        &mut |t| {
+            watch.on_step(t);
+            Ok(())
+        },
+        &Opts { stutter_labels: Some(STUTTER_LABELS), ..Default::default() },
+    );
+    if let Some((tid, msg)) = run.panics.first() {
+        return Verdict::fail("C16/thread-panic", format!("thread {} panicked: {}", tid, msg));
+    }
+    if run.deadlock {
+        return Verdict::fail("C16/deadlock", format!("all threads blocked; trace {}", render_trace(&run.trace)));
+    }
+    if run.diverged {
+        return Verdict::Dropped("schedule_step_bound".into());
+    }
+    let trace = &run.trace;
+    let mut ups = updater_positions(trace, 0);
+    if ups.len() != case.sets.len() || !watch.apply(&mut ups) || ups.iter().any(|u| !u.ok || u.install.is_none() || u.mark_done.is_none()) {
+        return Verdict::Dropped("updater_trace_incomplete".into());
+    }
+    let installs: Vec<usize> = ups.iter().map(|u| u.install.unwrap()).collect();
+    let npre = case.pre.len();
+    let obs = std::mem::take(&mut *out.lock().unwrap());
+    let store = std::mem::take(&mut *store.lock().unwrap());
+
+    // serial in force at each observation
+    let mut at: BTreeMap<(usize, usize), (usize, u32)> = BTreeMap::new();
+    for o in &obs {
+        let Some((first, last)) = obs_reads(trace, o.tid, (o.k, 0)) else { return Verdict::Dropped("observation_without_lock_step".into()) };
+        if first != last {
+            return Verdict::Dropped("observation_with_two_lock_steps".into());
+        }
+        at.insert((o.tid, o.k), (first, model.serial(npre + count_before(&installs, first))));
+    }
+    let issued_for = |v: &Val| -> u32 { v.serial.unwrap_or_else(|| at[&v.origin.unwrap()].1) };
+
+    // ---- every ETag belongs to one version ----
+    let mut etag_serials: BTreeMap<String, BTreeSet<u32>> = BTreeMap::new();
+    let mut date_serials: BTreeMap<String, BTreeSet<u32>> = BTreeMap::new();
+    for v in &store {
+        etag_serials.entry(v.etag.clone()).or_default().insert(issued_for(v));
+        date_serials.entry(v.date.clone()).or_default().insert(issued_for(v));
+    }
+    for o in obs.iter().filter(|o| o.status == 304) {
+        // a 304 repeats the validators of the version the server believes it is serving
+        if let Some(e) = &o.etag {
+            etag_serials.entry(e.clone()).or_default().insert(at[&(o.tid, o.k)].1);
+        }
+    }
+    if let Some((etag, serials)) = etag_serials.iter().find(|(_, s)| s.len() > 1) {
+        return Verdict::fail("C16/etag-issued-for-two-versions", format!("ETag {} was issued while serials {:?} were served; trace: {}", etag, serials, render_trace(trace)));
+    }
+    if date_serials.values().any(|s| s.len() > 1) {
+        info.class("info:last-modified-shared-by-two-versions(update window)");
+    }
+    for v in &store {
+        match parse_etag(&v.etag) {
+            Some((s, n)) if s == session && n == issued_for(v) => {}
+            _ => return Verdict::fail("C16/etag-names-other-version", format!("ETag {} issued while (session {:x}, serial {}) was served", v.etag, session, issued_for(v))),
+        }
+    }
+
+    // ---- 304 only for a validator of the served version ----
+    let mut nt = false;
+    for o in &obs {
+        let (pos, cur) = at[&(o.tid, o.k)];
+        let window = ups.iter().enumerate().find(|(_, u)| pos > u.install.unwrap() && pos < u.mark_done.unwrap()).map(|(i, _)| i);
+        let presented: Vec<(&'static str, u32)> = o.sent_etags.iter().map(|i| ("etag", issued_for(&store[*i]))).chain(o.sent_date.iter().map(|i| ("last-modified", issued_for(&store[*i])))).collect();
+        if presented.is_empty() {
+            info.class(format!("get={}", o.status));
+            continue;
+        }
+        let stale_only = presented.iter().all(|(_, s)| *s != cur);
+        if let Some(i) = window {
+            if model.changed(npre + i) && presented.iter().any(|(_, s)| *s + 1 == cur) {
+                nt = true;
+                info.class("nt:previous-version-validator-inside-update-window");
+            }
+            info.class(format!("conditional-inside-update-window:{}", if model.changed(npre + i) { "changed" } else { "unchanged" }));
+        }
+        let kinds: String = presented.iter().map(|(k, _)| *k).collect::<BTreeSet<_>>().into_iter().collect::<Vec<_>>().join("+");
+        match o.status {
+            304 => {
+                if stale_only {
+                    let which = if o.sent_etags.is_empty() { "last-modified" } else if o.sent_date.is_none() { "etag" } else { "etag+last-modified" };
+                    let place = if window.is_some() { "inside-update-window" } else { "outside-update-window" };
+                    return Verdict::fail(
+                        format!("C16/304-for-stale-validator/{}/{}", which, place),
+                        format!(
+                            "reader {} op {} ({}) got 304 while serial {} was served; presented validators were issued for serial(s) {:?} (If-None-Match {:?}, If-Modified-Since {:?}); trace: {}",
+                            o.tid,
+                            o.k,
+                            if o.csv { "/csv" } else { "/json" },
+                            cur,
+                            presented,
+                            o.sent_etags.iter().map(|i| store[*i].etag.clone()).collect::<Vec<_>>(),
+                            o.sent_date.map(|i| store[i].date.clone()),
+                            render_trace(trace)
+                        ),
+                    );
+                }
+                // which validator earned it?
+                let by_etag = o.sent_etags.iter().any(|i| issued_for(&store[*i]) == cur);
+                info.class(if by_etag { "304:etag-of-served-version" } else { "304:last-modified-of-served-version" });
+            }
+            200 => {
+                info.class(format!("conditional[{}]=200:{}", kinds, if stale_only { "stale-validator" } else { "validator-of-served-version" }));
+            }
+            other => return Verdict::fail("C16/unexpected-status", format!("status {} for a conditional request after the first validation", other)),
+        }
+    }
+    info.nt(nt);
+    info.class(format!("readers={} calls={}", case.readers.len(), case.sets.len()));
+    Verdict::Pass
+}
+
+fn prop_sched(world: &World<'_>, case: &Case, info: &mut CaseInfo) -> Verdict {
+    let mut ch = BytesChooser::new(&case.choices);
+    execute(world, case, &mut ch, info)
+}
+
+fn cop_strategy() -> impl Strategy<Value = COp> {
+    prop_oneof![
+        1 => any::<bool>().prop_map(|csv| COp::Get { csv }),
+        5 => (any::<u8>(), prop_oneof![Just((true, false)), Just((false, true)), Just((true, true))], prop::bool::weighted(0.3), prop::option::weighted(0.2, any::<u8>()))
+            .prop_map(|(pick, (etag, date), csv, pick2)| COp::Cond { pick, etag, date, csv, pick2 }),
+    ]
+}
+
+fn case_strategy() -> impl Strategy<Value = Case> {
+    (
+        prop::sample::select(vec![1usize, 2, 10]),
+        prop::collection::vec(0u8..16, 1..=2),
+        prop::collection::vec(0u8..16, 1..=3),
+        prop::collection::vec(prop::collection::vec(cop_strategy(), 1..=3), 1..=3),
+        prop::collection::vec(0u8..4, 0..64),
+    )
+        .prop_map(|(keep, pre, sets, readers, choices)| Case { keep, pre, sets, readers, choices })
+}
+
+fn dfs_programs(tier: Tier) -> Vec<Case> {
+    let c = |pre: &[u8], sets: &[u8], readers: &[&[COp]]| Case { keep: 10, pre: pre.to_vec(), sets: sets.to_vec(), readers: readers.iter().map(|r| r.to_vec()).collect(), choices: vec![] };
+    let cond = |pick: u8, etag: bool, date: bool| COp::Cond { pick, etag, date, csv: false, pick2: None };
+    // store after `pre = [1]`: 0 = /json validators of serial 0, 1 = /csv validators of serial 0
+    let mut v = vec![
+        c(&[1], &[3], &[&[cond(0, true, false), cond(0, true, false)]]),
+        c(&[1], &[3], &[&[cond(0, false, true), cond(0, false, true)]]),
+        c(&[1], &[3], &[&[cond(0, true, true)], &[COp::Get { csv: false }, cond(2, true, true)]]),
+        c(&[1], &[1, 3], &[&[cond(0, false, true), cond(0, true, false)]]),
+        c(&[1, 3], &[1], &[&[COp::Cond { pick: 2, etag: true, date: false, csv: true, pick2: Some(0) }, cond(2, true, true)]]),
+    ];
+    v.push(c(&[1], &[3, 7], &[&[COp::Get { csv: false }, cond(2, true, true)], &[cond(0, false, true)]]));
+    if tier == Tier::Thorough {
+        v.push(c(&[1], &[3, 3, 1], &[&[cond(0, true, true), COp::Get { csv: true }, cond(2, false, true)]]));
+    }
+    v
+}
+
+fn run_dfs(ctx: &Ctx, rep: &mut Report, world: &World<'_>) {
+    let bound = usize::MAX;
+    let cap = ctx.tier.pick(1_500usize, 60_000);
+    let mut per_program = Vec::new();
+    let mut all_exhausted = true;
+    let mut total = 0usize;
+    for prog in dfs_programs(ctx.tier) {
+        let mut dfs = Dfs::new();
+        let mut n = 0usize;
+        let mut exhausted = false;
+        loop {
+            let mut info = CaseInfo::default();
+            let mut bounded = Bounded::new(&mut dfs, bound);
+            let verdict = execute(world, &prog, &mut bounded, &mut info);
+            n += 1;
+            let case = Case { choices: bounded.taken.clone(), ..prog.clone() };
+            rep.record(ctx, &Tagged { sub: "sched".to_string(), case }, &info, &verdict);
+            if rep.violated() {
+                return;
+            }
+            if !dfs.advance() {
+                exhausted = true;
+                break;
+            }
+            if n >= cap {
+                break;
+            }
+        }
+        total += n;
+        all_exhausted &= exhausted;
+        per_program.push(serde_json::json!({"pre": prog.pre, "sets": prog.sets, "readers": prog.readers, "schedules": n, "exhausted": exhausted}));
+    }
+    rep.extra.insert("dfs_schedules".into(), serde_json::json!(total));
+    rep.extra.insert("dfs_programs".into(), serde_json::json!(per_program));
+    rep.exhaustive = Some(all_exhausted);
+}
+
+pub fn run(ctx: &Ctx, rep: &mut Report, replay: Option<&serde_json::Value>) {
+    rep.rule("as C15: thread 0 performs 1-3 Server::process_once calls (changing and unchanged data sets) after 1-2 sequential calls; the client stored the (ETag, Last-Modified) of /json and /csv after every sequential call and stores those of every later 200 response, each with the version it was issued for; 1-3 reader threads x 1-3 requests: plain GET or conditional GET replaying a stored pair as If-None-Match (optionally a list of two stored ETags), If-Modified-Since or both, on /json or /csv, scheduled at any yield point including between update's installing write and mark_update_done; (dfs) every schedule of 5 programs (thorough 7, capped), (sched) generated programs and choice strings; oracle: 304 => one of the presented validators was issued for the serial in force at the request's lock acquisition; no ETag is issued for two different versions; every ETag names the version it was issued for; non-trivial = a conditional request carrying a validator of the previous version acquires the lock between the installing write and mark_update_done of a changing update; distinct by program+schedule");
+    rep.assume("the wall clock is not controlled: Last-Modified has whole seconds while the recorded creation time has nanoseconds and maybe_not_modified compares `date >= created`, so an If-Modified-Since carrying a date issued by routinator can only produce 304 when the creation time has a zero sub-second part (about 1e-9 per update); the suspected window defect (new serial paired with the old creation time between update and mark_update_done => 304 for the previous version's Last-Modified) needs exactly that and is not reachable by this check; the check is sensitive to whole-second comparison, ETag mix-ups and ETag reuse (see MANIFEST note)");
+    rep.assume("one controlled thread runs at a time (sequentially consistent interleavings at yield-point granularity)");
+    let fx = Fixture::new(ctx);
+    let world = World::new(&fx);
+    if let Some(v) = replay {
+        let t: Tagged<Case> = serde_json::from_value(v.clone()).expect("replay");
+        run_case(ctx, rep, "sched", &t.case, |c, i| prop_sched(&world, c, i));
+        return;
+    }
+    run_dfs(ctx, rep, &world);
+    if rep.violated() {
+        return;
+    }
+    run_prop(ctx, rep, "sched", ctx.tier.pick(6_000, 150_000), case_strategy(), |c, i| prop_sched(&world, c, i));
 }
